@@ -136,28 +136,25 @@ MV_CASES = [(s, e, t) for s in (-9, -1, 0, 2, 7) for e in (-9, -2, 0, 3, 9) for 
 
 def strings_module(rng):
     """A module whose string table holds planted repeats at every distance/length threshold of the table compressors:
-    constant = X + filler + X with |X| in {20, 34, 35, 36, 40, 70, 300} and |X|+|filler| sweeping 60..140 and 2**k-3..2**k+3."""
+    constant = X + filler + X with |X| around the length thresholds (3..5, 33..37, 130, 257..259, 300) and |filler| around the
+    offset thresholds (0..2, 120..135, 252..259, 382..387, 508..515, 638..642, 2**k-1..2**k+1)."""
     import random, hashlib
     r = random.Random(rng.randrange(1 << 30))
     alpha = "abcdefghijklmnopqrstuvwxyzABCDEFGHIJKLMNOPQRSTUVWXYZ0123456789"
     consts = []
     def rnd(n):
         return "".join(r.choice(alpha) for _ in range(n))
-    for L in (35,):
-        for dist in range(100, 141):
-            if dist >= L:
-                x = rnd(L); consts.append(x + rnd(dist - L) + x)
-    for L in (34, 40):
-        for dist in (126, 127, 128, 129, 130):
-            x = rnd(L); consts.append(x + rnd(dist - L) + x)
-    for L in (20, 36, 70, 300):
-        for dist in (126, 127, 128, 129, 130, 254, 255, 256, 257):
-            if dist >= L:
-                x = rnd(L); consts.append(x + rnd(dist - L) + x)
-    for k in range(9, 13):
+    # phrase of L bytes, repeated after exactly G other bytes (G and L sweep the token-form thresholds of the compressors)
+    gaps = list(range(0, 3)) + list(range(120, 136)) + list(range(252, 260)) + list(range(382, 388)) + list(range(508, 516)) + list(range(638, 643))
+    for G in gaps:
+        for L in (35, 40):
+            x = rnd(L); consts.append(x + rnd(G) + x)
+    for G in (126, 127, 128, 129, 130, 510, 511, 512, 513):
+        for L in (3, 4, 5, 33, 34, 36, 37, 130, 131, 257, 258, 259, 300):
+            x = rnd(L); consts.append(x + rnd(G) + x)
+    for k in range(10, 13):
         for d in (-1, 0, 1):
-            for L in (35, 300):
-                x = rnd(L); consts.append(x + rnd((1 << k) + d - L) + x)
+            x = rnd(35); consts.append(x + rnd((1 << k) + d) + x)
     r.shuffle(consts)
     src = ["# cython: language_level=3", "import hashlib", "CONSTS = ("]
     for i, c in enumerate(consts):
